@@ -361,6 +361,9 @@ struct Exec {
   bool z_nonzero(int i) {
     int a = md.order[i], b = md.order[i + 1];
     if (U.dim(a) != U.dim(b)) return false;
+    // RU matrices with caller-chosen IDs: which row index designates a row of U is not documented, so the entry is
+    // not read and the z_eq_1 variants are not called
+    if (RU && explicit_ids) return false;
     if constexpr (RU) {
       if constexpr (IDX != IDEN) return !m->is_zero_entry((Index)i, (Index)md.rid[i + 1], false);
       else return !core().mirrorMatrixU_.is_zero_entry((Index)i, (Index)md.rid[i + 1]);
@@ -1160,6 +1163,7 @@ int run_cfg(const vf::Args& a, double t0) {
       long before = g_bad;
       d.run(p);
       if (g_bad != before) break;
+      if (n == h.size()) (void)d.enabled(p);   // the enabledness computation reads the object too
     }
     vf::end_case();
     return 0;
